@@ -131,7 +131,9 @@ def eval_migration(f, path, v1_exists, rows, others=("records-1", "namespaces-2"
             return r
         return C.handle(kind, name, payload, site)
     try:
-        ret, it = E.run_it(f, path, [E.href("tx")], {"tx": E.Tok("tx")}, oracle)
+        # private helpers of the migrations are evaluated, not kept as uninterpreted applications
+        inl = tuple(p for p in f.bodies if p.startswith(M) and not f.bodies[p].rec.get("derived"))
+        ret, it = E.run_it(f, path, [E.href("tx")], {"tx": E.Tok("tx")}, oracle, inline=inl)
         return E.describe(ret, f), log
     except E.Unsupported as e:
         return "UNSUPPORTED-FORM: %s" % e, log
